@@ -658,7 +658,7 @@ class Model:
             if not out.items:
                 raise ForthErr("rewind_beyond")
             if n > 0:
-                if n > 100000:
+                if n > 100000 or len(out.items) + n > 400000:
                     raise Budget()      # a legal but enormous output: outside the explored size bound
                 out.items.extend([out.items[-1]] * n)
         elif op == "len":
